@@ -64,7 +64,8 @@ Definition offer_laid (l : log) (msg : list Z) (req : Z) (es : list entry) (cl :
 
 Definition claim_laid (l : log) (n off len : Z) (req : Z) (es : list entry) (cl : option (Z * Z * Z)) : Prop :=
   exists f, es = [Claimed f] /\ cl = Some (n mod 3, off, len + 32) /\ req = span f /\
-            f_len f = len + 32 /\ f_type f = T_DATA /\ f_flags f = F_UNFRAG /\ f_session f = l_session l.
+            f_len f = len + 32 /\ f_type f = T_DATA /\ f_flags f = F_UNFRAG /\ f_session f = l_session l /\
+            0 <= len <= max_payload_length l.
 
 Record flavour_ok (F : flavour) (pinv : Z -> Z -> fl_state F -> Prop) : Prop := mkFlavourOk {
   fk_basic : forall n off p, pinv n off p -> legal (plog p) /\ 0 <= n < two31 /\ l_count (plog p) = n /\ 0 <= off;
@@ -326,5 +327,253 @@ Proof. intros [n off Fr pend k j D Hp Hg Hlr Hcr Hh Hlim Hwin Hcl]. destruct Hh 
     intros H2. unfold chunks_of in *. destruct (length a) eqn:El; cbn [chunks] in *; [cbn in H2; lia|].
     destruct (blen a <=? sg_mpl g) eqn:Eb; [cbn in H2; lia|]. cbn [hd]. rewrite Tm in Eb. intros Hnil.
     apply (f_equal (@length Z)) in Hnil. rewrite firstn_length in Hnil. cbn [length] in Hnil. unfold blen in Eb. lia. Qed.
+
+(* ---- commit / abort of the open claim ---- *)
+Lemma step_resolve s sp o :
+  sys_rep F pinv s sp -> sy_open s = true -> match o with SCommit _ | SAbort => True | _ => False end ->
+  sys_rep F pinv (fst (sys_step F m rv s o)) (spec_step g sp (event_of (fl_pub F (sy_pub s)) o (snd (sys_step F m rv s o)))).
+Proof. intros [n off Fr pend k j D Hp Hg Hlr Hcr Hh Hlim Hwin Hcl] Hopen Ho.
+  pose proof (tlen_facts _ Hg) as (T1 & T32 & Tmp & _ & Tmpl & Tg & Tm). pose proof Hg as (Hleg & Ht & Hm & Hs).
+  destruct (fk_basic F pinv FK n off _ Hp) as (_ & Hn & Hcount & Hoff).
+  unfold claim_ok in Hcl. destruct pend as [f|]; [|congruence]. destruct Hcl as (_ & Hclaim & Hty & Hfl & Hfs & Hflen).
+  assert (Hna : is_append (pub_op (fl_pub F (sy_pub s)) o) = false) by (destruct o; try contradiction; reflexivity).
+  assert (Hok : C04Proofs.op_ok (plog (sy_pub s)) (pub_op (fl_pub F (sy_pub s)) o)) by (destruct o; try contradiction; exact Logic.I).
+  destruct (fk_env F pinv FK m rv n off (sy_pub s) _ Hp Hna Hok) as (E1 & E2 & E3).
+  assert (Hst : sys_step F m rv s o = (mkSys (fst (fl_step F m rv (sy_pub s) (pub_op (fl_pub F (sy_pub s)) o))) (sy_img s) (sy_asm s) false,
+                                        (snd (fl_step F m rv (sy_pub s) (pub_op (fl_pub F (sy_pub s)) o)), [], []))).
+  { destruct o; try contradiction; cbn [sys_step]; destruct (fl_step F m rv (sy_pub s) _); reflexivity. }
+  rewrite Hst. cbn [fst snd].
+  set (p' := fst (fl_step F m rv (sy_pub s) (pub_op (fl_pub F (sy_pub s)) o))) in *.
+  set (l := sys_log s) in *.
+  pose proof (lr_klo _ _ _ _ _ _ _ _ Hlr) as [Hk1 Hk2].
+  pose proof (lr_empty _ _ _ _ _ _ _ _ Hlr) as Hemp.
+  pose proof (cr_j _ _ _ _ _ _ _ Hcr) as Hj.
+  pose proof Hh as Hh0. destruct Hh0 as [_ _ _ _ O _ _ _ _]. destruct (sp_open sp) as [[len p]|] eqn:Eopen; [|contradiction].
+  destruct O as [O1 O2].
+  assert (Hclen : claimed_len (fl_pub F (sy_pub s)) = len).
+  { unfold claimed_len. rewrite Hclaim, HDR_eq. lia. }
+  assert (Hn3 : 0 <= n mod 3 < 3) by (apply Z.mod_pos_bound; lia).
+  assert (Hp32 : (n * sg_tlen g + off) mod 32 = 0).
+  { rewrite Tg. pose proof (lr_tail _ _ _ _ _ _ _ _ Hlr) as Htl. cbn [pend_span] in Htl. rewrite <- Htl.
+    rewrite !Z.add_assoc. rewrite Z.add_mod, (span_mod32 f) by lia. rewrite Z.add_0_r, Z.mod_mod by lia.
+    rewrite Z.add_mod, (span_sum_mod32 (Fr n)) by (try lia; eapply frames_pos_F; eassumption).
+    rewrite Z.add_0_r, Z.mod_mod by lia. rewrite Z.add_mod, (mul_mod32 n T32), (start_al n0 off0 Hoff0al) by lia. reflexivity. }
+  destruct o as [| |kk| | | | | |]; try contradiction.
+  - (* commit *)
+    set (body := payload kk (claimed_len (fl_pub F (sy_pub s)))) in *.
+    assert (Hbl : zlen body = len) by (unfold body; rewrite Hclen; apply zlen_payload; lia).
+    assert (Hpub : fl_pub F p' = mkPub (set_part l (n mod 3) (term_update (part l (n mod 3)) (off - span f) (commit_entry body)))
+                                        (ps_closed (fl_pub F (sy_pub s))) (ps_claim (fl_pub F (sy_pub s)))).
+    { rewrite E1. cbn [pub_op env_step]. fold body. unfold pub_commit. rewrite Hclaim.
+      assert (Eb : (f_len f - HDR <? zlen body) = false) by (rewrite HDR_eq; lia). rewrite Eb.
+      unfold claim_apply. rewrite Hclaim. reflexivity. }
+    set (f' := mkFrame (f_len f) (f_version f) (f_flags f) (f_type f) (f_term_off f) (f_session f) (f_stream f) (f_term_id f) (f_reserved f) body).
+    assert (Hnp : is_pad f' = false) by (unfold is_pad, f'; cbn [f_type]; rewrite Hty; reflexivity).
+    assert (Hfok : frame_ok ses f').
+    { constructor; unfold f'; cbn [f_len f_session f_body]; try lia; auto. intros _. unfold blen, zlen in *. lia. }
+    cbn [event_of spec_step]. fold body. rewrite Eopen.
+    apply (SysRep F pinv _ _ n off (upd Fr n (Fr n ++ [f'])) None k j D); cbn [sy_pub sy_img sy_asm sy_open]; rewrite ?sys_log_mk, ?Hpub; cbn [ps_log ps_claim].
+    + exact E3.
+    + eapply geom_ok_same; [apply same_geom_set_part|exact Hg].
+    + eapply (log_rep_resolve n0 off0 Hoff0 l _ n off Fr k f (commit_entry body) f'); try eassumption; try reflexivity.
+      * apply part_set_part_same. assumption.
+      * intros x Hx Hne. apply part_set_part_other; auto.
+      * fold l in Hs. rewrite Hs. exact Hfok.
+    + apply cursor_rep_upd; [lia|]. eapply cursor_rep_view; [|exact Hcr]. reflexivity.
+    + assert (He2 : forall x, n < x -> Fr x = []) by (intros x Hx; apply Hemp; lia).
+      assert (Hbm : blen body <= sg_mpl g) by (rewrite Tm; unfold blen, zlen in *; lia).
+      exact (hist_commit g ses Fr n off k j (sy_asm s) sp D f f' len p body Hh Eopen ltac:(lia) He2 Hj Hfok Hnp Hfl eq_refl eq_refl Hbm ltac:(lia) Hp32).
+    + exact Hlim.
+    + exact Hwin.
+    + reflexivity.
+  - (* abort *)
+    assert (Hpub : fl_pub F p' = mkPub (set_part l (n mod 3) (term_update (part l (n mod 3)) (off - span f) abort_entry))
+                                        (ps_closed (fl_pub F (sy_pub s))) (ps_claim (fl_pub F (sy_pub s)))).
+    { rewrite E1. cbn [pub_op env_step]. unfold claim_apply. rewrite Hclaim. reflexivity. }
+    set (f' := mkFrame (f_len f) (f_version f) (f_flags f) T_PAD (f_term_off f) (f_session f) (f_stream f) (f_term_id f) (f_reserved f) (f_body f)).
+    assert (Hnp : is_pad f' = true) by reflexivity.
+    assert (Hfok : frame_ok ses f').
+    { constructor; unfold f'; cbn [f_len f_session f_body]; try lia; auto. intros H. unfold is_pad in H. cbn [f_type] in H. discriminate. }
+    cbn [event_of spec_step]. rewrite Eopen.
+    apply (SysRep F pinv _ _ n off (upd Fr n (Fr n ++ [f'])) None k j D); cbn [sy_pub sy_img sy_asm sy_open]; rewrite ?sys_log_mk, ?Hpub; cbn [ps_log ps_claim].
+    + exact E3.
+    + eapply geom_ok_same; [apply same_geom_set_part|exact Hg].
+    + eapply (log_rep_resolve n0 off0 Hoff0 l _ n off Fr k f abort_entry f'); try eassumption; try reflexivity.
+      * apply part_set_part_same. assumption.
+      * intros x Hx Hne. apply part_set_part_other; auto.
+      * fold l in Hs. rewrite Hs. exact Hfok.
+    + apply cursor_rep_upd; [lia|]. eapply cursor_rep_view; [|exact Hcr]. reflexivity.
+    + assert (He2 : forall x, n < x -> Fr x = []) by (intros x Hx; apply Hemp; lia).
+      exact (hist_abort g ses Fr n off k j (sy_asm s) sp D f f' len p Hh Eopen ltac:(lia) He2 Hj Hnp eq_refl ltac:(lia)).
+    + exact Hlim.
+    + exact Hwin.
+    + reflexivity. Qed.
+
+(* ---- offers and claims ---- *)
+Lemma next_index_eq l n : l_count l = n -> 0 <= n < two31 -> next_index l = (n + 1) mod 3.
+Proof. intros Hc Hn. unfold next_index. rewrite Hc, index_by_term_count_nonneg by assumption. apply Zplus_mod_idemp_l. Qed.
+
+Lemma next_clean s n off len : pinv n off (sy_pub s) -> off <= l_tlen (sys_log s) ->
+  append_ok F m s len = true -> ps_closed (fl_pub F (sy_pub s)) = false ->
+  n * l_tlen (sys_log s) + off < l_limit (sys_log s) -> part (sys_log s) ((n + 1) mod 3) = [].
+Proof. intros Hp Hoff Hok Hcl Hlt. destruct (fk_basic F pinv FK n off _ Hp) as (_ & Hn & Hcount & _).
+  unfold append_ok, below_limit in Hok. rewrite (fk_position F pinv FK m n off _ Hp Hoff), Hcl in Hok.
+  unfold plog in *. fold (sys_log s) in *.
+  rewrite (next_index_eq _ n Hcount Hn) in Hok. unfold part_clean in Hok.
+  destruct (part (sys_log s) ((n + 1) mod 3)); [reflexivity|]. lia. Qed.
+
+(* the end-of-term trip, for either kind of append *)
+Lemma rep_trip (p : fl_state F) im asm op sp (p' : fl_state F) n off Fr k j D req :
+  pinv (n + 1) 0 p' -> geom_ok (plog p) ->
+  log_rep n0 off0 (plog p) n off Fr None k -> cursor_rep n0 off0 (plog p) Fr im k j ->
+  hist_rep g ses Fr None n off k j asm sp D ->
+  l_limit (plog p) <= im_pos im + tlen -> op = false -> 0 <= n -> n < two31 - 1 ->
+  0 < req <= l_tlen (plog p) / 2 -> n * l_tlen (plog p) + off < l_limit (plog p) -> l_tlen (plog p) < off + req ->
+  same_geom (plog p) (plog p') -> l_limit (plog p') = l_limit (plog p) ->
+  part (plog p') (n mod 3) =
+    (if off <? l_tlen (plog p)
+     then term_put (part (plog p) (n mod 3)) off (padding_entries (plog p) off (wrap32 (l_init (plog p) + n)))
+     else part (plog p) (n mod 3)) ->
+  (forall x, 0 <= x < 3 -> x <> n mod 3 -> part (plog p') x = part (plog p) x) ->
+  part (plog p) ((n + 1) mod 3) = [] ->
+  sys_rep F pinv (mkSys p' im asm op)
+          (mkSpec (sp_stream sp ++ pad_to_term_end g (sp_stream sp)) (sp_open sp) (sp_acc sp) (sp_del sp) (sp_ok sp)).
+Proof. intros Hp' Hg Hlr Hcr Hh Hlim Hop Hn Hlast Hreq Hlt Hfit Hsg Hl' Hpart Hoth Hnext.
+  pose proof (tlen_facts _ Hg) as (T1 & T32 & Tmp & _ & Tmpl & Tg & Tm). pose proof Hg as (Hleg & Ht & Hm & Hs).
+  pose proof Hsg as (G1 & G2 & G3 & G4 & G5).
+  pose proof (lr_klo _ _ _ _ _ _ _ _ Hlr) as [Hk1 Hk2]. pose proof (lr_empty _ _ _ _ _ _ _ _ Hlr) as Hemp.
+  pose proof (cr_j _ _ _ _ _ _ _ Hcr) as Hj. pose proof (lr_off _ _ _ _ _ _ _ _ Hlr) as Hoff.
+  pose proof (off_al n0 off0 Hoff0al _ _ _ _ _ Hlr) as Hoal.
+  pose proof (pos_bounds _ _ _ _ _ _ _ _ Hlr Hcr Ht ltac:(lia)) as Hpb.
+  assert (Hhalf : l_tlen (plog p) / 2 * 2 <= l_tlen (plog p)).
+  { pose proof (Z.div_mod (l_tlen (plog p)) 2 ltac:(lia)). pose proof (Z.mod_pos_bound (l_tlen (plog p)) 2 ltac:(lia)). lia. }
+  rewrite Ht in *.
+  assert (Ho0 : 0 < off) by lia.
+  assert (Hkn : n - 1 <= k) by nia.
+  assert (Hpads : exists pads, part (plog p') (n mod 3) = (if off <? l_tlen (plog p) then term_put (part (plog p) (n mod 3)) off (map Committed pads) else part (plog p) (n mod 3)) /\
+             (if off <? tlen then exists q, pads = [q] /\ frame_ok ses q /\ is_pad q = true /\ span q = tlen - off else pads = [])).
+  { pose proof (padding_facts (plog p) off (wrap32 (l_init (plog p) + n)) Hg ltac:(lia) Hoal) as Hpf. rewrite Ht in *.
+    destruct (off <? tlen) eqn:Eo.
+    - destruct Hpf as (q & Hq1 & Hq2 & Hq3 & Hq4). exists [q]. rewrite Hpart, Hq1. split; [reflexivity|]. exists q. auto.
+    - exists []. split; [exact Hpart|reflexivity]. }
+  destruct Hpads as (pads & Hpart' & Hpads). rewrite Ht in Hpart'.
+  apply (SysRep F pinv _ _ (n + 1) 0 (upd Fr n (Fr n ++ pads)) None k j D); cbn [sy_pub sy_img sy_asm sy_open]; rewrite ?sys_log_mk; fold (plog p').
+  - exact Hp'.
+  - eapply geom_ok_same; eassumption.
+  - apply (log_rep_trip n0 off0 Hoff0 (plog p) (plog p') n off Fr k pads Hlr); try congruence; try lia; try assumption.
+    + rewrite Ht. exact Hpart'.
+    + rewrite Ht, Hs. destruct (off <? tlen); [|exact Hpads]. destruct Hpads as (q & Hq1 & Hq2 & Hq3 & Hq4). exists q. auto.
+  - apply cursor_rep_upd; [lia|]. eapply cursor_rep_view; [|exact Hcr]. congruence.
+  - assert (He2 : forall x, n < x -> Fr x = []) by (intros x Hx; apply Hemp; lia).
+    assert (Ho2 : 0 < off <= sg_tlen g) by (rewrite Tg; lia).
+    rewrite <- Tg in Hpads.
+    exact (hist_trip g ses Fr n off k j asm sp D pads Hh ltac:(lia) He2 Hj Ho2 Hn Hpads).
+  - rewrite Hl'. exact Hlim.
+  - lia.
+  - exact Hop. Qed.
+
+Lemma on_result_refuse sp e acc : e <> AdminAction -> on_result g sp (Err e) acc = sp.
+Proof. intros H. destruct e; try reflexivity. contradiction. Qed.
+
+Lemma step_offer s sp kk len :
+  sys_rep F pinv s sp -> env_ok F m s (SOffer kk len) = true ->
+  sys_rep F pinv (fst (sys_step F m rv s (SOffer kk len)))
+          (spec_step g sp (event_of (fl_pub F (sy_pub s)) (SOffer kk len) (snd (sys_step F m rv s (SOffer kk len))))).
+Proof. intros [n off Fr pend k j D Hp Hg Hlr Hcr Hh Hlim Hwin Hcl] Henv.
+  pose proof (tlen_facts _ Hg) as (T1 & T32 & Tmp & _ & Tmpl & Tg & Tm). pose proof Hg as (Hleg & Ht & Hm & Hs).
+  destruct (fk_basic F pinv FK n off _ Hp) as (_ & Hn & Hcount & Hoff).
+  pose proof (lr_off _ _ _ _ _ _ _ _ Hlr) as Hofft.
+  unfold env_ok in Henv. apply andb_prop in Henv as [Hlast Hok]. unfold plog in Hcount. fold (sys_log s) in Hcount.
+  rewrite Hcount in Hlast.
+  assert (Hlens : 0 <= len <= 1073741824 /\ sy_open s = false) by (unfold append_ok in Hok; lia).
+  destruct Hlens as [Hlen Hopen].
+  assert (Hpend : pend = None). { unfold claim_ok in Hcl. destruct pend; [|reflexivity]. destruct Hcl as [Ho _]. congruence. }
+  subst pend.
+  pose proof (fk_offer F pinv FK m rv n off (sy_pub s) (payload kk len) Hp ltac:(lia) Hofft) as Heff.
+  rewrite (zlen_payload kk len) in Heff by lia. specialize (Heff ltac:(lia)). unfold plog in Heff at 1. fold (sys_log s) in Heff.
+  rewrite Hm in Heff. specialize (Heff Hmtu32).
+  destruct s as [p im asm op]. cbn [sy_pub sy_img sy_asm sy_open] in *. rewrite sys_log_mk in *. fold (plog p) in *.
+  cbn [sys_step pub_op sy_pub sy_img sy_asm sy_open]. destruct (fl_step F m rv p (Offer (payload kk len))) as [p' r] eqn:Est.
+  cbn [fst snd event_of spec_step].
+  clear Hcount. inversion Heff as [e Hne | p2 req es cl Hlaid Hreq Hclosed Hlt Hfit Hsg Hl' Hpart Hoth Hclm Hp' | p2 req Hreq Hclosed Hlt Hfit Hsg Hl' Hpart Hoth Hclm Hp']; subst.
+  - (* refused *)
+    rewrite on_result_refuse by assumption.
+    apply (SysRep F pinv _ sp n off Fr None k j D); cbn [sy_pub sy_img sy_asm sy_open]; rewrite ?sys_log_mk; auto.
+  - (* accepted *)
+    destruct Hlaid as (-> & fs & -> & Hfok & Hfsp & Hfit2).
+    pose proof Hsg as (G1 & G2 & G3 & G4 & G5).
+    pose proof (lr_klo _ _ _ _ _ _ _ _ Hlr) as [Hk1 Hk2]. pose proof (lr_empty _ _ _ _ _ _ _ _ Hlr) as Hemp.
+    pose proof (cr_j _ _ _ _ _ _ _ Hcr) as Hj.
+    assert (Hnext : part (plog p) ((n + 1) mod 3) = []).
+    { apply (next_clean (mkSys (F := F) p im asm false) n off len Hp Hofft Hok Hclosed Hlt). }
+    cbn [on_result].
+    apply (SysRep F pinv _ _ n (off + req) (upd Fr n (Fr n ++ fs)) None k j D); cbn [sy_pub sy_img sy_asm sy_open]; rewrite ?sys_log_mk; fold (plog p').
+    + exact Hp'.
+    + eapply geom_ok_same; eassumption.
+    + apply (log_rep_append n0 off0 Hoff0 (plog p) (plog p') n off Fr k fs req Hlr); try congruence; try assumption; try lia.
+    + apply cursor_rep_upd; [lia|]. eapply cursor_rep_view; [|exact Hcr]. congruence.
+    + assert (He2 : forall x, n < x -> Fr x = []) by (intros x Hx; apply Hemp; lia).
+      assert (Hfok2 : Forall (frame_ok ses) fs) by (rewrite <- Hs; exact Hfok).
+      assert (Hr32 : req mod 32 = 0) by (rewrite <- Hfsp; apply span_sum_mod32; eapply frames_ok_pos; eassumption).
+      assert (Hp32 : (n * sg_tlen g + off) mod 32 = 0).
+      { rewrite Tg. rewrite Z.add_mod, (mul_mod32 n T32), (off_al n0 off0 Hoff0al _ _ _ _ _ Hlr) by lia. reflexivity. }
+      assert (Hit : items_of fs = msg_items (sg_mpl g) (payload kk len)) by (rewrite Tm, <- Tmpl; exact Hfit2).
+      pose proof (hist_offer g ses Fr n off k j asm sp D (payload kk len) fs req Hh ltac:(lia) He2 Hj Hfok2 Hfsp Hreq Hr32 Hp32 Hit) as HH.
+      rewrite Tg in HH. rewrite Ht. exact HH.
+    + rewrite Hl'. exact Hlim.
+    + exact Hwin.
+    + reflexivity.
+  - (* end of term *)
+    cbn [on_result].
+    assert (Hnext : part (plog p) ((n + 1) mod 3) = []).
+    { apply (next_clean (mkSys (F := F) p im asm false) n off len Hp Hofft Hok Hclosed Hlt). }
+    apply (rep_trip p im asm false sp p' n off Fr k j D req); auto; lia. Qed.
+
+Lemma step_claim s sp len :
+  sys_rep F pinv s sp -> env_ok F m s (SClaim len) = true ->
+  sys_rep F pinv (fst (sys_step F m rv s (SClaim len)))
+          (spec_step g sp (event_of (fl_pub F (sy_pub s)) (SClaim len) (snd (sys_step F m rv s (SClaim len))))).
+Proof. intros [n off Fr pend k j D Hp Hg Hlr Hcr Hh Hlim Hwin Hcl] Henv.
+  pose proof (tlen_facts _ Hg) as (T1 & T32 & Tmp & _ & Tmpl & Tg & Tm). pose proof Hg as (Hleg & Ht & Hm & Hs).
+  destruct (fk_basic F pinv FK n off _ Hp) as (_ & Hn & Hcount & Hoff).
+  pose proof (lr_off _ _ _ _ _ _ _ _ Hlr) as Hofft.
+  unfold env_ok in Henv. apply andb_prop in Henv as [Hlast Hok]. unfold plog in Hcount. fold (sys_log s) in Hcount.
+  rewrite Hcount in Hlast.
+  assert (Hlens : 0 <= len <= 1073741824 /\ sy_open s = false) by (unfold append_ok in Hok; lia).
+  destruct Hlens as [Hlen Hopen].
+  assert (Hpend : pend = None). { unfold claim_ok in Hcl. destruct pend; [|reflexivity]. destruct Hcl as [Ho _]. congruence. }
+  subst pend.
+  pose proof (fk_claim F pinv FK m rv n off (sy_pub s) len Hp ltac:(lia) Hofft Hlen) as Heff.
+  destruct s as [p im asm op]. cbn [sy_pub sy_img sy_asm sy_open] in *. rewrite sys_log_mk in *. fold (plog p) in *.
+  cbn [sys_step pub_op sy_pub sy_img sy_asm sy_open]. destruct (fl_step F m rv p (Claim len)) as [p' r] eqn:Est.
+  cbn [fst snd event_of spec_step].
+  clear Hcount. inversion Heff as [e Hne | p2 req es cl Hlaid Hreq Hclosed Hlt Hfit Hsg Hl' Hpart Hoth Hclm Hp' | p2 req Hreq Hclosed Hlt Hfit Hsg Hl' Hpart Hoth Hclm Hp']; subst.
+  - (* refused *)
+    rewrite on_result_refuse by assumption. cbn [is_ok].
+    apply (SysRep F pinv _ sp n off Fr None k j D); cbn [sy_pub sy_img sy_asm sy_open]; rewrite ?sys_log_mk; auto.
+  - (* accepted *)
+    destruct Hlaid as (f & -> & -> & -> & Hfl & Hfty & Hffl & Hfses & Hflen).
+    pose proof Hsg as (G1 & G2 & G3 & G4 & G5).
+    pose proof (lr_klo _ _ _ _ _ _ _ _ Hlr) as [Hk1 Hk2]. pose proof (lr_empty _ _ _ _ _ _ _ _ Hlr) as Hemp.
+    pose proof (cr_j _ _ _ _ _ _ _ Hcr) as Hj.
+    assert (Hnext : part (plog p) ((n + 1) mod 3) = []).
+    { apply (next_clean (mkSys (F := F) p im asm false) n off len Hp Hofft Hok Hclosed Hlt). }
+    cbn [on_result is_ok].
+    apply (SysRep F pinv _ _ n (off + span f) Fr (Some f) k j D); cbn [sy_pub sy_img sy_asm sy_open]; rewrite ?sys_log_mk; fold (plog p').
+    + exact Hp'.
+    + eapply geom_ok_same; eassumption.
+    + apply (log_rep_claim n0 off0 Hoff0 (plog p) (plog p') n off Fr k f Hlr); try congruence; try assumption; try lia.
+    + eapply cursor_rep_view; [|exact Hcr]. congruence.
+    + pose proof (hist_claim g ses Fr n off k j asm sp D f len Hh Hfl) as HH.
+      rewrite Tg in HH. rewrite Ht. exact HH.
+    + rewrite Hl'. exact Hlim.
+    + exact Hwin.
+    + unfold claim_ok. split; [reflexivity|]. rewrite Hclm. split; [f_equal; f_equal; [f_equal; ring|lia]|].
+      rewrite Tmpl in Hflen. repeat split; try assumption; try lia.
+  - (* end of term *)
+    cbn [on_result is_ok].
+    assert (Hnext : part (plog p) ((n + 1) mod 3) = []).
+    { apply (next_clean (mkSys (F := F) p im asm false) n off len Hp Hofft Hok Hclosed Hlt). }
+    apply (rep_trip p im asm false sp p' n off Fr k j D req); auto; lia. Qed.
 End Step.
 End Refine.
